@@ -142,6 +142,7 @@ func (fc *FnCtx) doCall(instr ssa.Instruction, c *ssa.CallCommon, pos token.Pos)
 		return nv
 	}
 	fc.hookAnchor("call", name, instr, args, c)
+	defer fc.advanceClock()
 	if len(fc.con.Ats) > 0 {
 		// snapshot (the heap object is updated in place by the call's effects)
 		fc.preCallHeap = fc.heap
@@ -1098,5 +1099,15 @@ func (fc *FnCtx) havocPointee(v ssa.Value, depth int) {
 		nv := fc.freshVal("havoc.struct", elem)
 		fc.assumeHere(fc.typeFacts(nv, elem))
 		fc.storeVal(fc.heap, pv, elem, nv)
+	}
+}
+
+// advanceClock: after a call the allocation clock has moved on by an unknown amount.
+func (fc *FnCtx) advanceClock() {
+	if old, ok := fc.ghost["now"]; ok {
+		fc.ghost = cloneMap(fc.ghost)
+		n := fc.fresh("now", sInt)
+		fc.assumeHere(sx(">=", n, old))
+		fc.ghost["now"] = n
 	}
 }
